@@ -11,7 +11,7 @@ from vlib import log
 
 def fmt_op(o):
     k = o["k"]
-    if k in ("spawn", "join", "unpark", "panic"):
+    if k in ("spawn", "spawn_named", "join", "unpark", "panic"):
         return f"{k}({o['v']})"
     if k in ("lock", "try_lock", "read", "write", "try_read", "try_write"):
         return f"{k}(o{o['o']},g{o['w']})"
@@ -26,7 +26,8 @@ def fmt_op(o):
 
 def fmt_prog(p):
     objs = {k: p[k] for k in ("nmutex", "atomics", "ncv", "nrw", "chans", "sems", "barriers", "nonce") if p.get(k)}
-    lines = [f"prog {p['id']} [{p['fam']}] objs={json.dumps(objs)}" + (f" maxsteps={p['maxsteps']}" if p.get("maxsteps") else "")]
+    lines = [f"prog {p['id']} [{p['fam']}] objs={json.dumps(objs)}" + (f" maxsteps={p['maxsteps']}" if p.get("maxsteps") else "")
+             + (f" tls_touch={p['tls_touch']} tls_yield={p['tls_yield']}" if p.get("fam") == "tls" else "")]
     for i, t in enumerate(p["tasks"]):
         lines.append(f"  T{i}: " + "; ".join(fmt_op(o) for o in t))
     return "\n".join(lines)
@@ -35,6 +36,8 @@ def fmt_prog(p):
 def fmt_ev(e):
     if e["e"] == "dec":
         return f"dec run={e['run']} sp={e['sp']} cur={e['cur']} y={int(e['y'])} -> {e['ch']}"
+    if e["e"] == "dt":
+        return f"   dtor t{e['t']} key{e['key']} val={e['val']} touch={e['touch']} -> {e['tr']}"
     if e["e"] == "op":
         return f"   op t{e['t']} c{e['c']} pc{e['pc']} {e['k']} = {e['r']}" + (f" clk={e['clk']}" if "clk" in e else "")
     return json.dumps(e)
